@@ -302,7 +302,7 @@ prop("C02",
 
 prop("C04",
      [r_gr.rule_grammar, r_gr.rule_select, r_gr.rule_strip, r_hdrt.rule_no_state, r_num.rule_finite_default, r_sec.rule_route,
-      r_sec.rule_title_pred, r_wl.rule_hdr_post, r_hdrt.rule_every_line, r_hdrt.rule_parser_stateless],
+      r_sec.rule_title_pred, r_wl.rule_hdr_post, r_hdrt.rule_every_line, r_hdrt.rule_parser_stateless, r_num.rule_numlit],
      "Grammar summary by path enumeration: configure_metadata_patterns is enumerated over all consistent outcomes of its "
      "tests (same test text => same truth value), its pattern strings are constant-propagated, and each assembled "
      "pattern list is compared - as a canonical regex structure from re._parser: character classes as sets over a probe "
@@ -597,6 +597,7 @@ ALSO7 = {
     "C17": "Round 7: PK.MEMO (__deepcopy__ hands its memo to every nested deepcopy).",
     "C18": "Round 7: EX.CSV (the csv.writer receives the caller's **kwargs).",
     "C20": "Round 7: IO.CALLER-OWNED also for `with <caller's object>:` (a with-statement closes what it is given).",
+    "C04": "Round 8: HDR.NUMLIT (the VALUE field becomes a number only when the whole text is a numeric literal: `15_9` stays text).",
     "C05": "Round 7: SEC.STEER reset clause (no steering variable is set back to a constant while a section with another title letter is processed).",
     "C06": "Round 7: SEC.STEER reset clause; NULL.WRITE formatter slots (callables stored in one slot agree on NaN handling: no bare `<format>.__mod__` next to NaN-aware formatters).",
     "C07": "Round 7: SEC.STEER reset clause; DATA.SPLIT empty-quoted. "
@@ -605,11 +606,21 @@ ALSO7 = {
     "C19": "Round 7: HDR.MNEM-TEST (a regular expression that identifies a mnemonic must match the whole of it: a bare word list applied with match() is a prefix test). "
            "DATA.SAMPLE-REL (junk lines in front of the data section must not change how many of its lines are sampled).",
 }
+ALSO8 = {
+    "C01": "Round 8: DATA.RESHAPE accepts an explicit transpose only of a result genfromtxt itself made 2-D (ndmin=2).",
+    "C08": "Round 8: a hand-written literal recogniser is evaluated by the constant folder on all strings of length <= 3 over 12 characters "
+           "and 24 longer spellings and must lie between the core and the widest documented literal language.",
+    "C10": "Round 8: PU.CHANNEL path-to-str (a pathlib.Path becomes the string of the same path: no lexical rewriting such as os.path.abspath).",
+    "C14": "Round 8: LF.VIEWS tests for the attribute self.curves itself (a derived table such as self.curvesdict does not count).",
+    "C18": "Round 8: EX.DF names default (the frame's own names are used when names is missing, None or empty).",
+}
 for _pid, _txt in ALSO.items():
     PROPS[_pid]["explanation"] += " " + _txt
 for _pid, _txt in ALSO6.items():
     PROPS[_pid]["explanation"] += " " + _txt
 for _pid, _txt in ALSO7.items():
+    PROPS[_pid]["explanation"] += " " + _txt
+for _pid, _txt in ALSO8.items():
     PROPS[_pid]["explanation"] += " " + _txt
 for _pid, _txt in ALSO4.items():
     PROPS[_pid]["explanation"] += " " + _txt
